@@ -774,9 +774,10 @@ def execNode : Nat → Node → XM Unit
               modify fun s => { s with cs := cs }
               executeTpl fuel ti ictx
             | .error e =>
-              if e.kind == .fromfile then
+              if e.kind == .fromfile && e.file == resolved then
                 modify fun s => { s with cs := { s.cs with fetchLog := s.cs.fetchLog ++ (cfg.loaders.zipIdx.map fun (_, i) => (i, Path.abs [] resolved)) } }
                 if ifExists then pure () else xerr "unable to resolve template" .exec
+              else if e.kind == .fromfile then xerr "unable to resolve template" .exec
               else if e.kind == .unsupported then xerr e.msg .unsupported
               else if e.kind == .outOfFuel then xerr "fuel" .diverge
               else xerr e.msg .exec
